@@ -30,11 +30,11 @@ def nanosPerSec : Nat := 1000000000
 
 /-! ## EXT-X-VERSION -/
 
-def ExtXVersion.parse (s : Str) : Res ProtocolVersion := do
+def ExtXVersion.parse (s : Str) : Res Nat := do
   let r ← stripTag s pfxVersion
   ProtocolVersion.parse r
 
-def ExtXVersion.show (v : ProtocolVersion) : Str := pfxVersion ++ ProtocolVersion.show v
+def ExtXVersion.show (v : Nat) : Str := pfxVersion ++ ProtocolVersion.show v
 
 /-! ## EXTINF -/
 
@@ -55,7 +55,7 @@ def ExtInf.parse (s : Str) : Res ExtInf := do
 def ExtInf.show (t : ExtInf) : Str :=
   pfxInf ++ showSecs t.duration ++ [','] ++ t.title.getD []
 
-def ExtInf.requiredVersion (t : ExtInf) : ProtocolVersion :=
+def ExtInf.requiredVersion (t : ExtInf) : Nat :=
   if t.duration % nanosPerSec == 0 then 1 else 3
 
 /-! ## EXT-X-BYTERANGE -/
@@ -88,7 +88,7 @@ def ExtXKey.show : ExtXKey → Str
   | some k => pfxKey ++ k.show
   | none => pfxKey ++ "METHOD=NONE".toList
 
-def ExtXKey.requiredVersion : ExtXKey → ProtocolVersion
+def ExtXKey.requiredVersion : ExtXKey → Nat
   | some k => k.requiredVersion
   | none => 1
 
@@ -402,7 +402,7 @@ def ExtXMedia.show (t : ExtXMedia) : Str :=
   ++ optAttr ",CHARACTERISTICS=" quote t.characteristics
   ++ optAttr ",CHANNELS=" (fun c => quote c.show) t.channels
 
-def ExtXMedia.requiredVersion (t : ExtXMedia) : ProtocolVersion :=
+def ExtXMedia.requiredVersion (t : ExtXMedia) : Nat :=
   match t.instream_id with
   | some i => i.requiredVersion
   | none => 1
